@@ -38,7 +38,14 @@ type HIDIConfigRaw struct {
 	} `toml:"HIDI"`
 }
 
-func LoadHIDIConfig(path string) (HIDIConfig, error) {
+func LoadHIDIConfig(path string) (result HIDIConfig, err error) {
+	// the TOML decoder panics on some valid-TOML inputs (e.g. a date where a number is expected)
+	defer func() {
+		if r := recover(); r != nil {
+			result, err = HIDIConfig{}, fmt.Errorf("parsing \"%s\" failed: %v", path, r)
+		}
+	}()
+
 	data, err := os.ReadFile(path)
 	if err != nil {
 		return HIDIConfig{}, fmt.Errorf("cannot read \"%s\" file: %w", path, err)
@@ -48,6 +55,13 @@ func LoadHIDIConfig(path string) (HIDIConfig, error) {
 	err = toml.Unmarshal(data, &rawConfig)
 	if err != nil {
 		return HIDIConfig{}, err
+	}
+
+	if rawConfig.HIDI.PoolRate <= 0 {
+		return HIDIConfig{}, fmt.Errorf("pool_rate has to be greater than 0 (got %d)", rawConfig.HIDI.PoolRate)
+	}
+	if rawConfig.HIDI.DiscoveryRate <= 0 {
+		return HIDIConfig{}, fmt.Errorf("discovery_rate has to be greater than 0 (got %d)", rawConfig.HIDI.DiscoveryRate)
 	}
 
 	var config HIDIConfig
